@@ -30,9 +30,33 @@ GEN_KW = {'n_cells': 9, 'features': ['names', 'array']}
 def ovset_for(g, s):
     rnd = random.Random(s * 53 + 7)
     consts = [i for i, c in g.cells.items() if c['k'] == 'c']
+    # cells read through a single-cell reference or a name: what a formula makes
+    # of a *blank* there (IF / IFERROR returning it, then & or =) is not settled
+    # by the property, so only the other cells are made blank
+    single = set()
+
+    def walk(e):
+        if e[0] == 'ref':
+            single.add(e[1])
+        elif e[0] == 'name' and g.names[e[1]][0] == 'ref':
+            single.add(g.names[e[1]][1])
+        elif e[0] == 'op':
+            walk(e[2]); walk(e[3])
+        elif e[0] == 'un':
+            walk(e[2])
+        elif e[0] == 'fn':
+            for a in e[2]:
+                walk(a)
+    for c in g.cells.values():
+        if 'e' in c:
+            walk(c['e'])
+    for e in g.names.values():
+        if e[0] == 'ref':
+            single.add(e[1])
     ov = {}
     for i in rnd.sample(consts, min(len(consts), rnd.randint(1, 2))):
-        ov[i] = {'k': 'z'} if rnd.random() < 0.35 else G.rnd_const(rnd, 'ntbe')
+        blank_ok = i not in single
+        ov[i] = {'k': 'z'} if (blank_ok and rnd.random() < 0.5) else G.rnd_const(rnd, 'ntbe')
     return {'ov': ov, 'style': 'cells'}
 
 
